@@ -50,8 +50,9 @@ pub struct Case {
     copies: usize,      // 0 single, 1 identical second copy, 2 conflicting copy (origin), 3 conflicting copy (limits only)
 }
 
-const NAMINGS: [&str; 8] = [
+const NAMINGS: [&str; 10] = [
     "jointN", "joint_N", "${prefix}joint_aN", "left_joint_N", "JOINT_N", "${prefix}JOINT_AN", "explicit-one-based", "explicit-zero-based",
+    "kuka_arm_joint_aN", "robot_a_JOINT_AN",
 ];
 
 fn joint_name(naming: usize, n: usize) -> String {
@@ -63,6 +64,9 @@ fn joint_name(naming: usize, n: usize) -> String {
         4 => format!("JOINT_{n}"),
         5 => format!("${{prefix}}JOINT_A{n}"),
         6 => format!("arm_axis_{n}"),
+        // a literal prefix that contains the decoration letter between "joint" and the number
+        8 => format!("kuka_arm_joint_a{n}"),
+        9 => format!("robot_a_JOINT_A{n}"),
         _ => format!("lf_joint_{}", n - 1),
     }
 }
@@ -239,7 +243,7 @@ pub fn document(c: &Case) -> (String, Option<[String; 6]>, Expect) {
             "<?xml version=\"1.0\"?>\n<robot xmlns:xacro=\"http://wiki.ros.org/xacro\">\n<xacro:macro name=\"cell\" params=\"prefix\">\n<group>\n{body}</group>\n</xacro:macro>\n</robot>\n"
         ),
     };
-    let names = if c.naming >= 6 { Some(std::array::from_fn(|i| joint_name(c.naming, i + 1))) } else { None };
+    let names = if c.naming == 6 || c.naming == 7 { Some(std::array::from_fn(|i| joint_name(c.naming, i + 1))) } else { None };
     (wrapped, names, expect)
 }
 
@@ -444,7 +448,7 @@ pub fn run(ctx: &Ctx) -> Report {
     });
     rep.traces_validated = rep.transitions;
     rep.rule = format!(
-        "generated descriptions: 6 parameter records x layouts {{c2 on z|x}} x {{c3 on joint 5|4}} x {{wrist along z|x}} x 8 naming schemes (incl. decorated, \
+        "generated descriptions: 9 parameter records (incl. exact relations between parameters of one origin) x layouts {{c2 on z|x}} x {{c3 on joint 5|4}} x {{wrist along z|x}} x 10 naming schemes (incl. decorated, a literal prefix sharing the decoration letter, \
          upper-case, explicit one-/zero-based lists) x nesting {{flat, xacro:macro, two levels}} x {n_order} joint-order permutations, with sign pattern (64), axis \
          syntax, limit syntax (6 uniform + 3 mixed per joint: even joints only, all but J6, J1/J4 absent with J3 unreadable) and single/identical/conflicting (origin; limits only) copy rotating along the permutation axis; oracle: parameters equal the printed decimals, \
          signs, limits, solver constraints follow arc membership (no <limit> => unconstrained), conflicting copy => Err; error paths: each joint missing, \
